@@ -758,6 +758,9 @@ impl Server {
 
 impl ServerIncoming for Server {
     fn handle_assign_job(&self, job_id: JobId, tc: Toolchain) -> Result<AssignJobResult> {
+        if !tc.archive_id_is_valid() {
+            bail!("invalid toolchain id {:?}", tc.archive_id);
+        }
         let need_toolchain = !self.cache.lock().unwrap().contains_toolchain(&tc);
         assert!(self
             .job_toolchains
